@@ -2618,3 +2618,37 @@ def replay(ctx, payload):
     else:
         eval_codec(ctx, [c])
 THEOREMS += ['routes_filter', 'gen_unpack_routing_table_entry']   # translator tie, third round (Props/C10Gen.lean)
+# translator tie, sixth round (Props/C10Gen.lean over Gen/PyFunTables.lean, harness/gen/pydo.py): the body of
+# routing_tree_to_tables is regenerated from the source on every run and proved equal to the model `treeTables`
+THEOREMS += ['natProp_opposite', 'gen_step_core', 'gen_step', 'gen_stepAll', 'gen_processNet', 'gen_processNets',
+             'gen_loop4', 'gen_loop3', 'gen_loop3_all', 'gen_tables_of', 'gen_tree_tables',
+             'errPy_injective', 'tablesPy_injective', 'resPy_injective', 'gen_tables_spec']
+CLAIM["text"] += (
+    " TRANSLATOR TIE of the first clause (sixth translator round): the whole body of routing_tree_to_tables - the loop "
+    "over the nets, key, mask = net_keys[net], the loop over the items yielded by tree.traverse(), in_direction / "
+    "direction.opposite, the defaultdict of OrderedDicts of InOutPair(ins, outs) named tuples of sets, the membership "
+    "test, the comparison of the stored out set with the node's, MultisourceRouteError(key, mask, (x, y)), the merge "
+    "(.ins.add), the creation of a new route set, and the second pair of loops that builds the RoutingTableEntry "
+    "lists - is translated from the source on every run (harness/gen/pydo.py -> Gen/PyFunTables.lean, Lean do-notation "
+    "in Except, every loop body its own definition, every read of a defaultdict with the insertion it performs) and "
+    "gen_tree_tables proves: for every list of (net id, net) items, every net_keys dict holding the nets' keys and "
+    "well-formed trees, generated routing_tree_to_tables(routes, net_keys) = treeTables(nets) - the same tables in "
+    "the same order (chips in order of first visit, entries in order of creation, route / sources as built) or the same "
+    "exception with the same arguments; so tables_exact, multisource_iff and tables_spec are statements about the code "
+    "as it is written today. gen_step is the per-node update (incl. the multi-source test and the merge), gen_stepAll / "
+    "gen_processNet / gen_processNets the two loops, gen_tables_of the final conversion; gen_tables_spec states the first "
+    "clause (TablesSpec) directly of the generated function, and the comparison loses nothing (resPy_injective).")
+CLAIM["note"] += (
+    " Translator tie of routing_tree_to_tables: what stays under the differential correspondence only is (1) "
+    "RoutingTree.traverse itself (a generator over an object graph; hand model `traverse`, theorem traverse_exact) - the "
+    "generated function takes, per net, the list of (direction, (x, y), out_directions) items the traversal yields; an "
+    "AssertionError raised half-way through a traversal of a malformed tree is therefore outside gen_tree_tables "
+    "(hypothesis: well-formed trees, as in tables_exact); (2) the representation step Python object -> Lean value: "
+    "x, y, key, mask are opaque hashables (Nat), Routes members their values, a set the list of its elements "
+    "(compared by mutual inclusion, added to without repetition), dicts association lists in insertion order; object "
+    "identity is not modelled (no container is bound to two names in the function, the translator refuses it), so "
+    "mutations that share one InOutPair / set object between chips or skip a tree seen before by identity change the "
+    "generated text only if they change the statements (they do: an extra dict / test appears) and are otherwise found "
+    "by the forest streams with shared objects. The proofs are semantic (dict lemmas in Lemmas/C10Dict.lean, then a "
+    "case split on the lookup); a rewrite the translator cannot read drops only this definition (broken obligation of "
+    "C10, extended search).")
